@@ -55,6 +55,21 @@ def generate(seed, tier):
                     "p_restart": 0.25, "schema_changes": r.random() < 0.25,
                     "p_delete": r.choice((0.15, 0.3))},
         cfg_kwargs={"force": {"long_text_p": 0.0}})
+    if r.random() < 0.15:
+        # a prefix of tiny commits brings the generation counter to 7..10, so that the transactions
+        # under test cross the 9 -> 10 boundary (file names, sort orders and parsers of "_MAIN_<n>.toc")
+        from whoosim.session import cfg_from_record
+        from whoosim.workload import DocGen
+        pr = random.Random("%s/prefix" % seed)
+        dg = DocGen(cfg_from_record(rec["config"]), pr, nkeys=12)
+        dg.next_uid = 100000
+        n = pr.randint(7, 10)
+        prefix = []
+        for i in range(n):
+            prefix += [["writer", {}], ["add", dg.doc(fields_subset=[], sparse_p=0.0)],
+                       ["commit", {"merge": pr.choice(("none", "none", "default"))}]]
+        rec["ops"] = prefix + rec["ops"]
+        rec["capture_from_tx"] = n
     x = r.random()
     # "ioerror": the disk fails once inside commit() (EIO, or ENOSPC with a short write) and the
     # process dies somewhere on the error path or right after commit() raised
@@ -234,13 +249,19 @@ def execute_enum(record, trace=False):
                 return
             capture("%s %s" % (kind, detail))
 
+        skip_tx = record.get("capture_from_tx", 0)
+
         def on_op(actor, i, op):
             if op[0] == "writer" and actor.w is None:
                 ctx["tx"] += 1
+                if ctx["tx"] <= skip_tx:
+                    return
                 ctx["phase"] = "body"
                 ctx["acc"] = [_acc(s, s.model.generation)]
 
         def before_commit(actor, m):
+            if ctx["tx"] <= skip_tx:
+                return
             docs, names, _ = actor.mw.preview(clear=(m == "clear"))
             ctx["phase"] = "commit"
             ctx["acc"] = [_acc(s, s.model.generation), Acceptable(s.model.generation + 1, docs, names)]
@@ -279,7 +300,7 @@ def execute_enum(record, trace=False):
             return True
 
         def after_commit(actor, probe_only=False):
-            if probe_only:
+            if probe_only or ctx["tx"] <= skip_tx:
                 return
             ctx["acc"] = [_acc(s, s.model.generation)]
             ctx["phase"] = "returned"
@@ -287,9 +308,13 @@ def execute_enum(record, trace=False):
             ctx["phase"] = None
 
         def before_abort(actor, kind):
+            if ctx["tx"] <= skip_tx:
+                return
             ctx["phase"] = "cancel"
 
         def after_abort(actor, how):
+            if ctx["tx"] <= skip_tx:
+                return
             ctx["phase"] = "returned"
             capture("cancel returned", inside=False)
             ctx["phase"] = None
@@ -414,13 +439,19 @@ def execute_kill(record, trace=False):
                 k.count("process_killed")
                 raise SimKilled()
 
+        skip_tx = record.get("capture_from_tx", 0)
+
         def on_op(actor, i, op):
             if op[0] == "writer" and actor.w is None:
                 ctx["tx"] += 1
+                if ctx["tx"] <= skip_tx:
+                    return
                 ctx["phase"] = "body"
                 ctx["acc"] = [_acc(s, s.model.generation)]
 
         def before_commit(actor, m):
+            if ctx["tx"] <= skip_tx:
+                return
             docs, names, _ = actor.mw.preview(clear=(m == "clear"))
             ctx["phase"] = "commit"
             ctx["acc"] = [_acc(s, s.model.generation), Acceptable(s.model.generation + 1, docs, names)]
@@ -520,7 +551,8 @@ def execute_kill(record, trace=False):
 def _count_inside_events(record):
     cfg = cfg_from_record(record["config"])
     s = Session(record["seed"], cfg=cfg)
-    ctx = {"phase": None, "n": 0}
+    ctx = {"phase": None, "n": 0, "tx": 0}
+    skip_tx = record.get("capture_from_tx", 0)
     try:
         wproc = s.k.new_proc("writer")
 
@@ -530,7 +562,9 @@ def _count_inside_events(record):
 
         def on_op(actor, i, op):
             if op[0] == "writer" and actor.w is None:
-                ctx["phase"] = "body"
+                ctx["tx"] += 1
+                if ctx["tx"] > skip_tx:
+                    ctx["phase"] = "body"
 
         def end(*a, **k):
             ctx["phase"] = None
